@@ -382,7 +382,16 @@ func terminates(b *ast.BlockStmt) bool {
 
 func runDirectionMirror(c *core.Ctx) {
 	arms, pairs := 0, 0
-	for _, rel := range []string{"query", tsm1, "tsdb", coord} {
+	mirrorPkgs := []string{"query", tsm1, "tsdb", coord}
+	if c.Tier == "thorough" {
+		// every package of the repository
+		mirrorPkgs = nil
+		for rel := range c.P.ByPath {
+			mirrorPkgs = append(mirrorPkgs, rel)
+		}
+		sort.Strings(mirrorPkgs)
+	}
+	for _, rel := range mirrorPkgs {
 		for _, f := range c.P.FuncsIn(rel) {
 			if f.Body == nil {
 				continue
